@@ -172,6 +172,29 @@ def who_may_call(F, G, rep):
 def run(F, rep, tier):
     G = reach.Graph(F)
     mx = order.rule_max_version(F, rep)
+    # "supported" means: the newest version whose fields the crate knows. The bound is the newest (major, minor) of the field
+    # oracle (spec/frames_spec.json, spec/start_spec.json — 3.16) with patch 0; a bound above it lets the writers serialise games
+    # whose newer fields were dropped on read, which is the data loss the guard exists to prevent
+    import model as _model
+    newest = (0, 0)
+
+    def _scan(fs):
+        nonlocal newest
+        for f_ in fs or []:
+            if f_.get("since"):
+                newest = max(newest, tuple(int(x) for x in f_["since"].split(".")[:2]))
+            _scan(f_.get("fields"))
+    for nm in ("frames_spec.json", "start_spec.json"):
+        sp_ = _model.load_spec(nm)
+        for v_ in sp_.values():
+            if isinstance(v_, dict):
+                _scan(v_.get("fields"))
+                for c_ in v_.get("payload_len_classes", []) or []:
+                    newest = max(newest, tuple(int(x) for x in c_["since"].split(".")[:2]))
+        _scan(sp_.get("fields") if isinstance(sp_.get("fields"), list) else None)
+    rep.ob("E5.max.oracle", mx is not None and tuple(mx) == (newest[0], newest[1], 0), "io::slippi::MAX_SUPPORTED_VERSION", "oracle",
+           "MAX_SUPPORTED_VERSION is %s but the newest version whose fields are known (field oracle) is %d.%d.0: games above that lose their newer fields on read and must be refused" % (
+               ".".join(str(x) for x in (mx or ())), newest[0], newest[1]), sample={"oracle_newest": list(newest)})
     for fn in WRITERS:
         guard_rule(F, G, rep, fn)
     version_refusals(F, G, rep)
